@@ -353,6 +353,25 @@ def cmd_case(item):
             n = sum(ex.values())
             if n != 1:
                 anoms.append(dict(key='builds-not-one:two-commands', what='%d executions after redo-ifchange of %s in turn: a spelling was taken for another target' % (n, [s for _, s in chosen])))
+        elif mode == 'one-line-contended':
+            # another invocation is building the file (so this command meets it locked) while two or three spellings of it
+            # stand on one `redo` command line: one forced rebuild after the lock is free, not one per spelling
+            common.write_file(os.path.join(top, target_rel + '.do'), DO % 9 + 'sleep 0.6\n')
+            argv = ['redo'] + (['-j%d' % j] if j > 1 else []) + [s for _, s in chosen]
+            res = pj.run_many([dict(argv=['redo', target_rel], cwd=top, extra=env_extra), dict(argv=argv, cwd=cwd, delay=0.3, extra=env_extra)], timeout=60)
+            obs['commands'] += 2
+            for r in res:
+                for a in scen.crash_anoms(r, pj.logs_text(), 'c15'):
+                    if a['cls'] == 'timeout':
+                        raise TimeoutError()
+                    anoms.append(dict(key='%s:%s' % (a['cls'], mode), what='%s -> %s' % (argv, a['what'][:300])))
+                if r.rc != 0 and not anoms:
+                    anoms.append(dict(key='nonzero:one-line-contended', what='%s exits %s: %s' % (argv, r.rc, r.err[-300:].replace('\n', ' | '))))
+            ex = executed(parse_trace(pj.trace_text()))
+            n = sum(ex.values())
+            if n != 2:
+                anoms.append(dict(key='builds-not-one:one-line-contended', what='%d executions in total (1 by the other invocation + 1 forced expected) for spellings %s on one command line (%s)'
+                                  % (n, [s for _, s in chosen], label)))
         else:   # dependency: a consumer declares the file through an odd spelling; editing the real input must rebuild the consumer
             l, s = chosen[0]
             common.write_file(os.path.join(cwd, 'cons.do'),
@@ -405,7 +424,7 @@ RULE = ('layer A (direct calls through native/harness): normpath on every byte s
         'and file symlinks, physical bases: lstat of the re-joined path equals lstat of t (or the same directory+name when t does not exist); '
         'realdirpath keeps the final component and canonicalises the directory part. Layer B (commands): one file, 8-12 spellings (relative, '
         'absolute, ./, //, dir/../, through two symlinked directories, symlink-then-..) from 4 working directories; two or three spellings on '
-        'one command line (redo and redo-ifchange, -j1 and -j4), in consecutive commands, and as a dependency declared by a consumer: exactly '
+        'one command line (redo and redo-ifchange, -j1 and -j4; also while another invocation holds the lock of the target), in consecutive commands, and as a dependency declared by a consumer: exactly '
         'one script execution, exit 0, no abort, exactly one Files row, named canonically; the consumer is rebuilt when the real file changes. '
         'Layer C: the same normpath / abs_path / RedoPath workloads (with the reference check inside) interpreted by Miri.')
 ASSUME = ['lexical cleaning is compared with the kernel only on symlink-free trees', 'relpath bases are physical directories (as at redo\'s call sites)',
@@ -431,7 +450,7 @@ def main(tier):
     cmd_items = []
     for t in targets:
         for c in cwds:
-            for mode in ('one-line', 'two-commands', 'dependency'):
+            for mode in ('one-line', 'two-commands', 'dependency', 'one-line-contended'):
                 for rep in range(6 if quick else 30):
                     k = 1 if mode == 'dependency' else rnd.choice([2, 2, 3])
                     idxs = tuple(rnd.sample(range(13), k))
